@@ -5,7 +5,7 @@ pk = sys.argv[1:] or ["./..."]
 base = json.load(open("/root/.vp/BASELINE.json"))
 stable = set(base["stable_pass"])
 env = dict(os.environ, GOFLAGS="-mod=mod", GOPROXY="off", GOSUMDB="off")
-p = subprocess.run(["go", "test", "-json", "-vet=off", "-count=1", "-timeout", "25m"] + pk, cwd="/repo", env=env, stdout=subprocess.PIPE, stderr=subprocess.DEVNULL, text=True)
+p = subprocess.run(["go", "test", "-json", "-vet=off", "-count=1", "-timeout", "25m"] + pk, cwd=os.environ.get("VP_RUN_REPO", "/repo"), env=env, stdout=subprocess.PIPE, stderr=subprocess.DEVNULL, text=True)
 passed, pkgs = set(), set()
 for line in p.stdout.splitlines():
     try: e = json.loads(line)
